@@ -53,6 +53,10 @@ func (eng *Engine) verifyContract(ct *Contract) (res *FuncResult) {
 	}
 	if ct.NoSafety {
 		vc.noSafety = true
+		vc.safetyOnly = map[string]bool{}
+		for _, k := range ct.SafetyOnly {
+			vc.safetyOnly[k] = true
+		}
 		vc.trust("contract " + ct.FullKey() + " is checked without safety obligations (nosafety): absence of panics in it is assumed")
 	}
 	if eng.loopInfo(fn).rpo == nil {
